@@ -128,6 +128,14 @@ func (b *byWithoutFilterCol) String(ctx *sql.Ctx, opts ...int) (string, error) {
 		}
 	}
 
+	if len(b.labels) == 0 {
+		// "IN ()" is not valid SQL
+		if !b.by {
+			return str, nil
+		}
+		return fmt.Sprintf("mapFilter((k,v) -> 0, %s)", str), nil
+	}
+
 	fn := "IN"
 	if !b.by {
 		fn = "NOT IN"
